@@ -56,6 +56,18 @@ theorem long_lived_readonly :
     object is allocated by the constructor -/
 theorem spec_validator_owns_its_options : specOptionsOrigin = "local new(SchemaValidatorOptions)" := by decide
 
+/-- T1: the inventory of process-wide state. These are all the package-level variables of the package: a constant table, the
+    debug switch and its logger, five stateless helper singletons (nil pointers to empty structs), the default options with their
+    mutex (`default_options_guarded`), the pools (C04), the shared empty result (C08.child_answers_never_written), and the
+    regexp dictionary with its mutex (C15). A new one — a process-wide cache, a memo, a `sync.Once` — is shared state this model
+    does not have, whatever it is used for -/
+theorem process_wide_state_inventory :
+    packageVars =
+      [("context.go", "operationTypeEnum"), ("debug.go", "Debug"), ("debug.go", "validateLogger"),
+       ("helpers.go", "pathHelp"), ("helpers.go", "valueHelp"), ("helpers.go", "errorHelp"), ("helpers.go", "paramHelp"),
+       ("helpers.go", "responseHelp"), ("options.go", "defaultOpts"), ("options.go", "defaultOptsMutex"), ("pools.go", "pools"),
+       ("result.go", "emptyResult"), ("rexp.go", "cacheMutex"), ("rexp.go", "reDict")] := by decide
+
 /-! non-vacuity: two disciplined threads, a schedule that interleaves them -/
 def thA : Prog Nat Nat := .borrow 0 (.write 0 0 5 (.read 0 0 fun v => .redeem 0 (.ret v)))
 def thB : Prog Nat Nat := .borrow 0 (.write 0 0 9 (.read 0 0 fun v => .redeem 0 (.ret (v + 1))))
